@@ -32,6 +32,14 @@ from simpleline.input import input_handler as IH                        # noqa
 from simpleline.input import input_threading as IT                      # noqa
 from simpleline.global_configuration import GlobalConfiguration         # noqa
 
+# ---- C20 GLib branch (begin): VERIF_SCREEN_LOOP=glib runs the sessions on GLibEventLoop over the real libglib
+# (ctypes stand-in for PyGObject, harness/glib_shim — on sys.path only in this mode, only in this worker process)
+GLIB = os.environ.get("VERIF_SCREEN_LOOP") == "glib"
+if GLIB:
+    sys.path.insert(0, os.path.join(os.path.dirname(os.path.abspath(__file__)), "glib_shim"))
+    from simpleline.event_loop import glib_event_loop as GEL            # noqa
+# ---- C20 GLib branch (end)
+
 CLS = {ExceptionSignal: 0, RenderScreenSignal: 1, CloseScreenSignal: 2, InputReceivedSignal: 3, InputReadySignal: 4}
 HEIGHT = 6
 STEP_LIMIT = 600
@@ -211,6 +219,135 @@ def run_session(case):
             return 10 + ih_id[id(owner)]
         return 999
 
+    # ---- C20 GLib branch (begin): the same observation points on GLibEventLoop; "queue id" = level id (creation order).
+    # Idle gate: every level's context carries a watchdog (idle source, priority 10**6) reached only when nothing else
+    # is ready there; under run() / process_signals(return_after) it plays loop_idle(): it releases the next typed
+    # line to the waiting reader thread and waits for that thread's submission, or ends the session (blocked).
+    if GLIB:
+        GLib = GEL.GLib
+        glevels_all, gmodes = [], {}
+        ext_done = threading.Event()
+
+        def gwatchdog(lid):
+            stack = gmodes[lid]
+            if stack and not stack[-1]:
+                return True                       # plain process_signals(): an idle context simply returns
+            r = ctl["reader"]
+            if r is not None and lines:
+                ctl["reader"] = None
+                ctl["line"] = lines.pop(0)
+                ext_done.clear()
+                line_ev.set()
+                if not ext_done.wait(60):
+                    raise Stuck()
+                return True
+            raise SessionEnd()
+
+        class LoggedELD(GEL.EventLoopData):
+            def __init__(self, loop):
+                super().__init__(loop)
+                self.lid = st["nq"]; st["nq"] += 1
+                ctx = loop.get_context(); ctx._lid = self.lid
+                gmodes[self.lid] = []; glevels_all.append(self)
+                w = GLib.idle_source_new(); w.set_priority(10 ** 6); w.set_callback(gwatchdog, self.lid); w.attach(ctx)
+
+        class GLoggedList(list):
+            def pop(self, *a):
+                l = super().pop(*a); log.append([9, l.lid]); return l
+
+        class GLoop(GEL.GLibEventLoop):
+            def __init__(self):
+                super().__init__()
+                self._event_loops = GLoggedList(self._event_loops)
+
+            def register_signal_handler(self, signal, callback, data=None):
+                hid = hid_for(callback)
+                c = CLS.get(signal, 99)
+
+                def wrapped(sig, d, callback=callback, hid=hid):
+                    sid = sid_of[id(sig)]
+                    log.append([4, hid, sid, 0])
+                    st["steps"] += 1
+                    if st["steps"] > STEP_LIMIT:
+                        raise StepLimit()
+                    try:
+                        callback(sig, d)
+                    except (SessionEnd, StepLimit, Stuck):
+                        raise
+                    except ExitMainLoop:
+                        log.append([5, hid, sid, [1]]); raise
+                    except SystemExit:
+                        log.append([5, hid, sid, [3]]); raise
+                    except Exception:
+                        log.append([5, hid, sid, [2]]); raise
+                    log.append([5, hid, sid, []])
+                super().register_signal_handler(signal, wrapped, data)
+                log.append([21, c, hid, 0])
+
+            def register_signal_source(self, signal_source):
+                super().register_signal_source(signal_source)
+                log.append([22, scr_id.get(id(signal_source), 999), self._event_loops[-1].lid])
+
+            def enqueue_signal(self, signal):
+                if threading.current_thread() is not main_thread:
+                    try:
+                        sid = register(signal)
+                        log.append([17, sid])           # the reader thread's submission (the loop thread waits in gwatchdog)
+                        return super().enqueue_signal(signal)
+                    finally:
+                        ext_done.set()
+                sid = register(signal)
+                if self._force_quit:
+                    log.append([1, sid])
+                return super().enqueue_signal(signal)
+
+            def _register_handlers_to_loop(self, event_loop, signal):
+                log.append([0, sid_of[id(signal)], event_loop.get_context()._lid])
+                return super()._register_handlers_to_loop(event_loop, signal)
+
+            def _run_handlers(self, data):
+                sid = sid_of[id(data.signal)]
+                st["dispatches"] = st.get("dispatches", 0) + 1
+                if st["dispatches"] > 5 * STEP_LIMIT:
+                    raise StepLimit()
+                log.append([2, sid, data.source.get_context()._lid, len(self._event_loops)])
+                super()._run_handlers(data)
+                log.append([6, sid])
+
+            def execute_new_loop(self, signal):
+                register(signal)
+                if self._force_quit:
+                    return super().execute_new_loop(signal)
+                q = st["nq"]; log.append([7, q])
+                super().execute_new_loop(signal)
+                log.append([8, q])
+
+            def process_signals(self, return_after=None):
+                lvl = self._event_loops[-1] if self._event_loops else None
+                if return_after is None:
+                    w, t = [], 0
+                else:
+                    w, t = [CLS.get(return_after, 99)], self._processed_signals._counter
+                log.append([10, w, t])
+                if lvl is not None:
+                    gmodes[lvl.lid].append(return_after is not None)
+                try:
+                    super().process_signals(return_after)
+                finally:
+                    if lvl is not None:
+                        gmodes[lvl.lid].pop()
+                log.append([11, w, t])
+
+            def force_quit(self):
+                super().force_quit(); log.append([12])
+
+            def run(self):
+                log.append([14]); super().run(); log.append([15])
+
+            def kill_app_with_traceback(self, exception_signal, data=None):
+                log.append([16]); super().kill_app_with_traceback(exception_signal, data)
+    # ---- C20 GLib branch (end)
+
     # ------------------------------------------------------------ screen layer instrumentation
     class SD(ScreenData):
         def __init__(self, ui_screen, args=None, execute_new_loop=False):
@@ -273,6 +410,11 @@ def run_session(case):
             self.i = i; self.spec = spec
             self.input_required = bool(spec[7]); self.no_separator = bool(spec[8])
             self.input_manager.skip_concurrency_check = bool(spec[9])
+            a0 = spec[11] if len(spec) > 11 else 0
+            if a0 == 3:
+                self.answer = None
+            elif a0 in (1, 2):
+                self.answer = (a0 == 1)
             if i % 2 == 1:
                 # every other screen takes hidden (password) input: same behaviour, other code path
                 # (PasswordInputHandler / PasswordInputHandlerRequest); the password function is the scripted reader
@@ -449,6 +591,12 @@ def run_session(case):
                 U(14, [me, c[1]])
             elif op == 15:
                 do_cmds(self, c[2] if n < c[1] else c[3], n, in_closed)
+            elif op == 16:
+                sys.exit(1)
+            elif op == 17:
+                screens[c[1]].redraw()
+            elif op == 18:
+                screens[c[1]].close()
             else:
                 raise AssertionError(op)
 
@@ -525,6 +673,8 @@ def run_session(case):
                (IT.InputThreadManager, "_print_new_prompt", staticmethod(print_new)),
                (IM.InputManager, "get_input_blocking", blocking), (IM.InputManager, "_process_input", process),
                (ML, "EventQueue", LoggedEQ), (SS, "ScreenData", SD)]
+    if GLIB:                                             # C20 GLib branch
+        patches.append((GEL, "EventLoopData", LoggedELD))
     saved = [(o, n, o.__dict__[n]) for o, n, _ in patches]
     for o, n, v in patches:
         setattr(o, n, v)
@@ -534,7 +684,7 @@ def run_session(case):
     try:
         with contextlib.redirect_stdout(out), contextlib.redirect_stderr(out):
             sys.excepthook = lambda *a: None
-            loop = Loop()
+            loop = GLoop() if GLIB else Loop()           # C20 GLib branch
             sched = Sched(loop, Stack())
             conf = GlobalConfiguration()
             conf.should_run_with_empty_stack = bool(run_empty)
@@ -570,8 +720,14 @@ def run_session(case):
         for o, n, v in saved:
             setattr(o, n, v)
         sys.excepthook = old_hook
+        if GLIB:                                         # C20 GLib branch: the default main context is shared by every
+            GLib._pending_exc[0] = None                  # GLibEventLoop of the process: leave nothing attached
+            for src in list(GLib._live_sources.values()):
+                src.destroy()
+            GLib._live_sources.clear()
+            del GLib._running_loops[:]
     stack = [d.sid for d in reversed(sched._screen_stack._screens)]
-    levels = [q.qid for q in loop._event_queues]
+    levels = [l.lid for l in loop._event_loops] if GLIB else [q.qid for q in loop._event_queues]
     return [outcomes, log, stack, levels, out.getvalue()]
 
 
